@@ -135,7 +135,7 @@ def shapes() -> list[tuple[str, list]]:
 def main() -> None:
     run = Run("C05", "translation_validation")
     run.forbid()
-    run.require_vo(["Ssb/EquivSound.v", "Lang/Inline.v", "Lang/InlineProofs.v", "Lang/SrcSem.v"])
+    run.require_vo(["Ssb/EquivSound.v", "Lang/Inline.v", "Lang/InlineProofs.v", "Lang/MacroStatic.v", "Lang/InlineFree.v", "Lang/SrcSem.v"])
     run.props("Props/C05.v")
     run.props("Props/C01.v")
     q = run.tier == "quick"
